@@ -118,7 +118,36 @@ func runC27(c *Ctx) {
 	for _, call := range dc.CallsTo(false, "spec/rpc.Send") {
 		c.Ob("dial", "DialClient#sends-the-link", call.Pos(), dc.Prov(call.Args[1]) == "param#1" && strings.Contains(dc.Prov(call.Args[0]), "recv.getConn()#0"), "the link (carrying the hostname) is sent on the dialled connection")
 	}
-	// classification
+	// classification. The "some route had no direct connection" flag is found by what it
+	// records, not by its name: a boolean local that is set to true under a positive
+	// tun.IsNoDirect test of a dial error (and never set to true anywhere else).
+	flag := map[*types.Var]bool{}
+	for _, fnode := range shallowNodes(dc.Body) {
+		as, ok := fnode.(*ast.AssignStmt)
+		if !ok || len(as.Lhs) != 1 || len(as.Rhs) != 1 {
+			continue
+		}
+		v := dc.varOf(as.Lhs[0])
+		if v == nil {
+			continue
+		}
+		if cv, _ := dc.ConstVal(as.Rhs[0]); cv != "true" {
+			continue
+		}
+		okRec := dc.FactsAt(as).Has(func(fa *Fact) bool { return fa.Kind == FTrue && dc.IsCall(fa.Call, "spec/tun.IsNoDirect") })
+		c.Ob("classification", "DialClient#no-direct-recorded", as.Pos(), okRec, "a route counts as 'client not connected' only when the dial error is a no-direct error")
+		if okRec {
+			if _, seen := flag[v]; !seen {
+				flag[v] = true
+			}
+		} else {
+			flag[v] = false
+		}
+	}
+	isFlag := func(e ast.Expr) bool {
+		v := dc.varOf(e)
+		return v != nil && flag[v]
+	}
 	nclass := 0
 	for _, r := range dc.Returns() {
 		pv := dc.Prov(r.Results[1])
@@ -126,26 +155,18 @@ func runC27(c *Ctx) {
 		case "global:spec/tun.ErrTunnelClientNotConnected":
 			nclass++
 			ok := dc.FactsAt(r).Cmp(func(e, tag ast.Expr, truth bool, fa *Fact) bool {
-				id, ok := e.(*ast.Ident)
-				return ok && truth && id.Name == "isNoRoute"
+				return tag == nil && truth && isFlag(e)
 			})
 			c.Ob("classification", "DialClient#not-connected-iff-some-no-direct", r.Pos(), ok, "not-connected is reported when some route's client had no direct connection and none succeeded")
 		case "global:spec/tun.ErrDestinationNotFound":
 			nclass++
 			ok := dc.FactsAt(r).Cmp(func(e, tag ast.Expr, truth bool, fa *Fact) bool {
-				id, ok := e.(*ast.Ident)
-				return ok && !truth && id.Name == "isNoRoute"
+				return tag == nil && !truth && isFlag(e)
 			})
 			c.Ob("classification", "DialClient#not-found-otherwise", r.Pos(), ok, "not-found is the fallback when no route reported no-direct")
 		}
 	}
 	c.Floor("DialClient classification returns", nclass, 2)
-	for _, as := range assignsTo(dc, "isNoRoute") {
-		if v, _ := dc.ConstVal(as.Rhs[0]); v == "true" {
-			ok := dc.FactsAt(as).Has(func(fa *Fact) bool { return fa.Kind == FTrue && dc.IsCall(fa.Call, "spec/tun.IsNoDirect") })
-			c.Ob("classification", "DialClient#no-direct-recorded", as.Pos(), ok, "a route counts as 'client not connected' only when the dial error is a no-direct error")
-		}
-	}
 	c.Note("O1: when routes exist and every dial fails with an error other than no-direct, DialClient answers ErrDestinationNotFound (the 'fallback'); the statement's 'not-connected when none of their clients is reachable' can be read either way; not armed.")
 
 	// getConn
